@@ -330,6 +330,11 @@ func TestC09(t *testing.T) {
 		}
 		r.Case(fmt.Sprint("c09|", seed), nontrivial)
 	}
+	// (after the generated cases: these draw from generators of their own and leave the histories above as they were)
+	// the relay-metrics end blocker over every class of relay history, through the module's EndBlock and whole blocks
+	c09MetrixScenarios(t, r)
+	// messages attested after the record they refer to was deleted by an ordinary transaction
+	c09StaleRecordScenarios(t, r)
 }
 
 func firstLines(s string, n int) string {
